@@ -63,26 +63,44 @@ def worker_footprint(seed, tier):
             self.cur = None
 
     class RecArray(np.ndarray):
+        """an array whose stores are observed.  _owner: the iteration during which it was
+        allocated (None = outside every iteration, i.e. shared between iterations);
+        _is_result: the kernel's result array"""
+        _owner = None
+        _is_result = False
+
+        def __array_finalize__(self, obj):
+            if obj is not None:
+                self._owner = getattr(obj, '_owner', None)
+                self._is_result = getattr(obj, '_is_result', False)
+
         def __setitem__(self, k, v):
             np.ndarray.__setitem__(self, k, v)
             r = state['rec']
-            if r is not None:
-                kk = key(k)
-                if r.cur is None:
-                    r.outside.append(['store', kk])
-                else:
-                    val = enc(np.ndarray.__getitem__(self, k)) if isinstance(kk, int) else 'n/a'
-                    r.its[-1][1].append([kk, val])
+            if r is None:
+                return
+            kk = key(k)
+            if r.cur is None:
+                return          # sequential prologue / epilogue / a serial kernel: not an iteration
+            if self._owner is not None and self._owner == r.cur:
+                return                      # a scratch array of this very iteration
+            if self._is_result:
+                val = enc(np.ndarray.__getitem__(self, k)) if isinstance(kk, int) else 'n/a'
+                r.its[-1][1].append([kk, val])
+            else:
+                # an array allocated outside the loop body (or by another iteration) is written
+                # by this iteration: shared between the numba threads
+                r.outside.append(['store-into-shared-array', int(r.cur), kk])
 
         def __getitem__(self, k):
             r = state['rec']
-            if r is not None and r.cur is not None:
+            if r is not None and r.cur is not None and self._is_result:
                 r.reads.append([int(r.cur), key(k)])
             return np.ndarray.__getitem__(self, k)
 
         def fill(self, v):
             r = state['rec']
-            if r is not None and r.cur is not None:
+            if r is not None and r.cur is not None and not (self._owner is not None and self._owner == r.cur):
                 r.outside.append(['fill-inside-iteration', int(r.cur)])
             np.ndarray.fill(self, v)
 
@@ -114,15 +132,31 @@ def worker_footprint(seed, tier):
                 r.leave()
 
     class NpShim:
+        """numpy as the kernels see it: every array they allocate is observed"""
+
         def __getattr__(self, name):
             return getattr(np, name)
 
-        def zeros(self, *a, **kw):
-            out = np.zeros(*a, **kw).view(RecArray)
+        def _tag(self, out):
+            out = out.view(RecArray)
             r = state['rec']
-            if r is not None and r.arr is None:
-                r.arr = out
+            out._owner = None if r is None else r.cur
+            if r is not None and r.arr is None and r.cur is None:
+                r.arr = out                 # the result array of the `enumerate(inds)` kernels
+                out._is_result = True
             return out
+
+        def zeros(self, *a, **kw):
+            return self._tag(np.zeros(*a, **kw))
+
+        def empty(self, *a, **kw):
+            return self._tag(np.empty(*a, **kw))
+
+        def ones(self, *a, **kw):
+            return self._tag(np.ones(*a, **kw))
+
+        def full(self, *a, **kw):
+            return self._tag(np.full(*a, **kw))
 
     def finish(r, final):
         if r.init is None:       # no iteration at all
@@ -135,13 +169,18 @@ def worker_footprint(seed, tier):
             args = list(args)
             res = args[pos]
             rv = res.view(RecArray)
+            rv._is_result = True
+            rv._owner = None
             r = Recorder(name)
             r.arr = rv
             args[pos] = rv
             state['rec'] = r
+            saved = intersection.np
+            intersection.np = NpShim()
             try:
                 out = fn(*args)
             finally:
+                intersection.np = saved
                 state['rec'] = None
             finish(r, np.asarray(res).tolist())
             return out
@@ -176,6 +215,17 @@ def worker_footprint(seed, tier):
     multipolygon._geometry_map_nested3 = k3
     multipoint.multipoints_intersect_bounds = wrap_result_kernel(
         intersection.multipoints_intersect_bounds, 'multipoints_intersect_bounds', 7)
+    # the serial *_intersect_bounds kernels too: should one of them become a prange loop, its
+    # iterations and every array it shares between them are observed
+    line.lines_intersect_bounds = wrap_result_kernel(intersection.lines_intersect_bounds,
+                                                     'lines_intersect_bounds', 7)
+    multiline.lines_intersect_bounds = line.lines_intersect_bounds
+    multiline.multilines_intersect_bounds = wrap_result_kernel(
+        intersection.multilines_intersect_bounds, 'multilines_intersect_bounds', 8)
+    polygon.polygons_intersect_bounds = wrap_result_kernel(
+        intersection.polygons_intersect_bounds, 'polygons_intersect_bounds', 8)
+    multipolygon.multipolygons_intersect_bounds = wrap_result_kernel(
+        intersection.multipolygons_intersect_bounds, 'multipolygons_intersect_bounds', 9)
     for nm in ('_perform_intersects_multipoint', '_perform_intersects_line', '_perform_intersects_polygon'):
         setattr(point, nm, wrap_inds_kernel(getattr(point, nm), nm))
 
@@ -184,8 +234,13 @@ def worker_footprint(seed, tier):
     from spatialpandas.geometry import Line, MultiLine, MultiPoint, MultiPolygon, Polygon
     for _ in range(ncalls):
         n = rng.choice([0, 1, 2, 3, 5, 8])
+        box0 = (rng.randint(0, 3), rng.randint(0, 3), rng.randint(3, 6), rng.randint(3, 6))
         for kind in ('line', 'ring', 'multiline', 'polygon', 'multipolygon'):
             arr = G.make_array(kind, G.rand_elements(rng, kind, n, lo=0, hi=6))
+            arr.intersects_bounds(box0)
+            if n:
+                arr.intersects_bounds(box0, inds=np.array([rng.randrange(n) for _ in range(rng.randint(0, n))],
+                                                          dtype='int64'))
             try:
                 arr.length
                 if kind in ('polygon', 'multipolygon'):
@@ -250,6 +305,140 @@ def _floats(a):
     import numpy as np
     a = np.asarray(a, dtype='float64')
     return hashlib.sha256(a.tobytes()).hexdigest()[:16]
+
+
+def make_large(n, seed):
+    """>= 50 000 elements of each of the 7 kinds, built straight from numpy buffers; the
+    coordinates are multiples of 1/4 in [0, 1000) so that a box over the middle of the plane is
+    hit by some elements, missed by others and crossed by a few"""
+    import numpy as np
+    import pyarrow as pa
+    from spatialpandas.geometry import (LineArray, MultiLineArray, MultiPointArray, MultiPolygonArray,
+                                        PointArray, PolygonArray, RingArray)
+    rs = np.random.RandomState(seed)
+    x = rs.randint(0, 4000, n) / 4.0
+    y = rs.randint(0, 4000, n) / 4.0
+
+    def la(offsets, values):
+        return pa.ListArray.from_arrays(pa.array(np.asarray(offsets), type=pa.int32()), values)
+
+    def verts(dx, dy, x0=x, y0=y):
+        """interleaved coordinates of the polyline x0+dx[j], y0+dy[j] for every element"""
+        v = np.empty((len(x0), len(dx), 2))
+        for j, (a, b) in enumerate(zip(dx, dy)):
+            v[:, j, 0] = x0 + a
+            v[:, j, 1] = y0 + b
+        return v.reshape(len(x0), -1)
+    sq = ([0, 6, 6, 0, 0], [0, 0, 6, 6, 0])
+    hole = ([2, 2, 4, 4, 2], [2, 4, 4, 2, 2])
+    out = {}
+    out['point'] = PointArray((x, y))
+    mp = verts([0, 3, -2], [0, 5, 7])
+    out['multipoint'] = MultiPointArray(la(np.arange(n + 1) * 6, pa.array(mp.reshape(-1))))
+    ln = verts([0, 4, 9, 2], [0, 7, -3, 11])
+    out['line'] = LineArray(la(np.arange(n + 1) * 8, pa.array(ln.reshape(-1))))
+    rg = verts(*sq)
+    out['ring'] = RingArray(la(np.arange(n + 1) * 10, pa.array(rg.reshape(-1))))
+    # multiline: three lines per element, far enough apart that often only some of them hit
+    l1 = verts([0, 5], [0, 3])
+    l2 = verts([40, 45, 50], [10, 2, 12])
+    l3 = verts([-60, -55], [-20, -35])
+    vals = np.concatenate([l1, l2, l3], axis=1).reshape(-1)
+    per = np.array([4, 6, 4])
+    inner_off = np.concatenate([[0], np.cumsum(np.tile(per, n))])
+    out['multiline'] = MultiLineArray(la(np.arange(n + 1) * 3, la(inner_off, pa.array(vals))))
+    # polygon: a square with a hole
+    vals = np.concatenate([verts(*sq), verts(*hole)], axis=1).reshape(-1)
+    inner_off = np.arange(2 * n + 1) * 10
+    out['polygon'] = PolygonArray(la(np.arange(n + 1) * 2, la(inner_off, pa.array(vals))))
+    # multipolygon: the square with a hole and a second square 30 to the right
+    sq2 = ([30, 36, 36, 30, 30], [0, 0, 6, 6, 0])
+    vals = np.concatenate([verts(*sq), verts(*hole), verts(*sq2)], axis=1).reshape(-1)
+    ring_off = np.arange(3 * n + 1) * 10
+    poly_off = np.concatenate([[0], np.cumsum(np.tile(np.array([2, 1]), n))])
+    out['multipolygon'] = MultiPolygonArray(la(np.arange(n + 1) * 2, la(poly_off, la(ring_off, pa.array(vals)))))
+    return out, x, y
+
+
+def large_suite(n, seed, repeats=3):
+    """every kernel family reachable from the public API on large arrays: returns
+    ({name: digest of the first run}, [names whose repeats differ], [scalar-form disagreements])"""
+    import numpy as np
+    from spatialpandas.geometry import Line, MultiLine, MultiPoint, MultiPolygon, Polygon
+    from spatialpandas.spatialindex import HilbertRtree
+    arrs, x, y = make_large(n, seed)
+    box = (300.0, 250.0, 700.0, 800.0)
+    digests, unstable, scalar_bad = {}, [], []
+    rs = np.random.RandomState(seed + 1)
+    sample = rs.randint(0, n, 40)
+
+    def run(name, fn, canon=lambda r: _floats(np.asarray(r))):
+        got = [canon(fn()) for _ in range(repeats)]
+        digests[name] = got[0]
+        if len(set(got)) != 1:
+            unstable.append(name)
+
+    for kind, arr in arrs.items():
+        run(f'large:intersects_bounds:{kind}', lambda a=arr: a.intersects_bounds(box))
+        res = np.asarray(arr.intersects_bounds(box))
+        if not (0 < int(res.sum()) < n):
+            scalar_bad.append(f'intersects_bounds:{kind}: the box is not a mixed hit/miss case ({int(res.sum())}/{n})')
+        inds = rs.randint(0, n, n // 2).astype('int64')
+        run(f'large:intersects_bounds[inds]:{kind}', lambda a=arr, i=inds: a.intersects_bounds(box, inds=i))
+        run(f'large:bounds:{kind}', lambda a=arr: a.bounds)
+        run(f'large:total_bounds:{kind}', lambda a=arr: np.asarray(a.total_bounds, dtype=float))
+        if kind != 'point':
+            run(f'large:length:{kind}', lambda a=arr: a.length)
+            run(f'large:area:{kind}', lambda a=arr: a.area)
+        # the scalar form on a sample
+        for i in sample:
+            el = arr[int(i)]
+            if bool(el.intersects_bounds(box)) != bool(res[i]):
+                scalar_bad.append(f'intersects_bounds:{kind}[{int(i)}]')
+                break
+        if kind != 'point':
+            ln, ar = np.asarray(arr.length), np.asarray(arr.area)
+            for i in sample[:15]:
+                el = arr[int(i)]
+                if float(el.length) != float(ln[i]) or float(el.area) != float(ar[i]):
+                    scalar_bad.append(f'length/area:{kind}[{int(i)}]')
+                    break
+    # points against shapes
+    pts = arrs['point']
+    pick = rs.randint(0, n, 300)
+    shapes = {
+        'multipoint': MultiPoint(np.column_stack([x[pick], y[pick]]).reshape(-1).tolist()),
+        'line': Line([0.0, 0.0, 1000.0, 1000.0, 1000.0, 0.0]),
+        'multiline': MultiLine([[0.0, 500.0, 1000.0, 500.0], [250.0, 0.0, 250.0, 1000.0], [0.0, 0.0, 1000.0, 1000.0]]),
+        'polygon': Polygon([[100.0, 100.0, 900.0, 100.0, 900.0, 600.0, 100.0, 600.0, 100.0, 100.0],
+                            [300.0, 200.0, 300.0, 400.0, 600.0, 400.0, 600.0, 200.0, 300.0, 200.0]]),
+        'multipolygon': MultiPolygon([[[0.0, 0.0, 400.0, 0.0, 400.0, 400.0, 0.0, 400.0, 0.0, 0.0]],
+                                      [[500.0, 500.0, 990.0, 500.0, 990.0, 990.0, 500.0, 990.0, 500.0, 500.0]]]),
+    }
+    inds = rs.randint(0, n, n // 2).astype('int64')
+    for nm, sh in shapes.items():
+        run(f'large:point.intersects:{nm}', lambda s=sh: pts.intersects(s))
+        run(f'large:point.intersects[inds]:{nm}', lambda s=sh: pts.intersects(s, inds=inds))
+        res = np.asarray(pts.intersects(sh))
+        if not (0 < int(res.sum()) < n):
+            scalar_bad.append(f'point.intersects:{nm}: not a mixed hit/miss case ({int(res.sum())}/{n})')
+        for i in sample:
+            if bool(pts[int(i)].intersects(sh)) != bool(res[i]):
+                scalar_bad.append(f'point.intersects:{nm}[{int(i)}]')
+                break
+    # R-tree: build + queries, through the array (sindex / cx) and directly
+    pb = np.asarray(arrs['polygon'].bounds, dtype='float64')
+    qb = np.array(box)
+    run('large:rtree:build+intersects', lambda: np.sort(np.asarray(HilbertRtree(pb, page_size=64).intersects(qb))))
+    tree = HilbertRtree(pb, page_size=64)
+    run('large:rtree:intersects', lambda: np.sort(np.asarray(tree.intersects(qb))))
+    run('large:rtree:covers_overlaps',
+        lambda: np.concatenate([np.sort(np.asarray(z)) for z in tree.covers_overlaps(qb)] + [np.array([-1])]))
+    for kind in ('point', 'multiline', 'polygon'):
+        a = arrs[kind]
+        fresh = type(a)(a.data, dtype=a.dtype)
+        run(f'large:cx:{kind}', lambda f=fresh: np.asarray(f.build_sindex().cx[box[0]:box[2], box[1]:box[3]].bounds))
+    return digests, unstable, scalar_bad
 
 
 class DelayFS:
@@ -402,6 +591,10 @@ def worker_sched(seed, tier):
     df, right = make_frames(n, 7)
     tmp = tempfile.mkdtemp(prefix='sp_c18_')
     res = {'numba_threads': numba.config.NUMBA_NUM_THREADS, 'runs': [], 'traces': []}
+    # large arrays first: the kernels split their iterations over the numba threads only there
+    nl = 60000 if tier == 'quick' else 250000
+    res['large_n'] = nl
+    res['large'], res['large_unstable'], res['large_scalar_bad'] = large_suite(nl, 5)
     try:
         configs = [('synchronous', 1, 0.0, None)]
         workers = [1, 2, 4, 16]
